@@ -83,6 +83,9 @@ class C09(E1Check):
                     progs.append({"fctx": fctx, "handler": handler, "spawns": [s]})
                     if s["body"] in ("raise", "ret") and s["place"] == "F":
                         progs.append({"fctx": fctx, "handler": handler, "spawns": [s], "block_raises": True})
+                    if s["body"] in ("ret", "raise", "forever") and s["place"] in ("F", "task", "deeper") and s["how"] != "soon-cancel":
+                        for fstart in ("inner", "component"):
+                            progs.append({"fctx": fctx, "handler": handler, "spawns": [s], "fstart": fstart})
                     if s["body"] in ("ret", "ret-td", "forever") and s["place"] in ("F", "task") and handler == "none" and s["how"] != "soon-cancel":
                         # another (asynchronous) teardown callback of the owning context, registered after the factory was started, fails
                         # while it is awaited: the factory's teardown step must still run and wait for the tasks
@@ -225,7 +228,8 @@ class C09(E1Check):
                 while c is not None:
                     chain.append(c)
                     c = c.parent
-                ok = expect["F"] in chain[1:] and all(x not in chain for x in expect["not"]) and cur is not expect["F"]
+                ok = (expect["F"] in chain[1:] and all(x not in chain for x in expect["not"]) and cur is not expect["F"]
+                      and all(x not in chain for x in st.get("not_parents", [])))
                 st["body_ctx"][i] = cur
                 snap = tuple(sorted(v.label for v in cur.get_resources(Res).values()))
                 log("body+", i, ok, snap)
@@ -344,10 +348,33 @@ class C09(E1Check):
             async with Context() if program["fctx"] == "nested" else _Null(root) as maybe:
                 F = maybe if program["fctx"] == "nested" else root
                 F.add_resource(Res("before"), "before")
-                if len(spawns) % 2:
-                    factory = await F.start_background_task_factory(exception_handler=handler if program["handler"] != "none" else None)
+                eh = handler if program["handler"] != "none" else None
+                inner_ctxs: list = []
+                if program.get("fstart") == "inner":
+                    # started ON the owning context while a deeper, short-lived context is the current one
+                    async with Context() as shortlived:
+                        shortlived.add_resource(Res("inner"), "inner")
+                        inner_ctxs.append(shortlived)
+                        factory = await F.start_background_task_factory(exception_handler=eh)
+                    log("inner-left")
+                elif program.get("fstart") == "component":
+                    # started from a component's start() through the module-level shortcut (the current context is a ComponentContext)
+                    from asphalt.core import Component, start_component
+
+                    box: dict = {}
+
+                    class FComp(Component):
+                        async def start(self) -> None:
+                            inner_ctxs.append(current_context())
+                            box["factory"] = await start_background_task_factory(exception_handler=eh)
+
+                    await start_component(FComp, {}, timeout=None)
+                    factory = box["factory"]
+                elif len(spawns) % 2:
+                    factory = await F.start_background_task_factory(exception_handler=eh)
                 else:
-                    factory = await start_background_task_factory(exception_handler=handler if program["handler"] != "none" else None)
+                    factory = await start_background_task_factory(exception_handler=eh)
+                st["not_parents"] = inner_ctxs
                 st["factory"] = factory
                 st["snapshot"] = tuple(sorted(v.label for v in F.get_resources(Res).values()))
                 F.add_resource(Res("after"), "after")
